@@ -61,6 +61,15 @@ func vhSnapshot(h *vrt.H, k Keeper, ctx sdk.Context, st *vhState) *vhSnap {
 
 // vhCheckInvL asserts the mid-block module invariant on the current store.
 func vhCheckInvL(h *vrt.H, k Keeper, ctx sdk.Context, st *vhState) {
+	addrs := make([]sdk.ConsAddress, st.N)
+	for i := range addrs {
+		addrs[i] = vhAddr(i)
+	}
+	vhCheckInvLAt(h, k, ctx, st, addrs)
+}
+
+func vhCheckInvLAt(h *vrt.H, k Keeper, ctx sdk.Context, st *vhState, addrs []sdk.ConsAddress) {
+	vhAddr := func(i int) sdk.ConsAddress { return addrs[i] }
 	ranked := make([]int, st.N)
 	it, err := k.PowerRanking.Iterate(ctx, nil)
 	vhMust(err)
